@@ -27,29 +27,29 @@ type Violation struct {
 }
 
 type Out struct {
-	Property     string           `json:"property"`
-	Tier         string           `json:"tier"`
-	Seed         int64            `json:"seed"`
-	Shard        int              `json:"shard"`
-	Shards       int              `json:"shards"`
-	Evaluations  int64            `json:"evaluations"`
-	Nontrivial   int64            `json:"nontrivial"`
-	BulkDistinct int64            `json:"bulk_distinct"`
-	HashFile     string           `json:"hash_file"`
-	Classes      map[string]int64 `json:"classes"`
-	Samples      []any            `json:"samples"`
-	Violations   []Violation      `json:"violations"`
-	Known        map[string]int64 `json:"known"`
+	Property     string            `json:"property"`
+	Tier         string            `json:"tier"`
+	Seed         int64             `json:"seed"`
+	Shard        int               `json:"shard"`
+	Shards       int               `json:"shards"`
+	Evaluations  int64             `json:"evaluations"`
+	Nontrivial   int64             `json:"nontrivial"`
+	BulkDistinct int64             `json:"bulk_distinct"`
+	HashFile     string            `json:"hash_file"`
+	Classes      map[string]int64  `json:"classes"`
+	Samples      []any             `json:"samples"`
+	Violations   []Violation       `json:"violations"`
+	Known        map[string]int64  `json:"known"`
 	KnownWhat    map[string]string `json:"known_what"`
-	Excluded     map[string]int64 `json:"excluded"`
-	Notes        map[string]any   `json:"notes"`
-	Rule         string           `json:"rule"`
-	Assumptions  []string         `json:"assumptions"`
-	Exhaustive   bool             `json:"exhaustive"`
-	Inconclusive int64            `json:"inconclusive"`
-	Harness      []string         `json:"harness_errors"`
-	WallS        float64          `json:"wall_s"`
-	Complete     bool             `json:"complete"`
+	Excluded     map[string]int64  `json:"excluded"`
+	Notes        map[string]any    `json:"notes"`
+	Rule         string            `json:"rule"`
+	Assumptions  []string          `json:"assumptions"`
+	Exhaustive   bool              `json:"exhaustive"`
+	Inconclusive int64             `json:"inconclusive"`
+	Harness      []string          `json:"harness_errors"`
+	WallS        float64           `json:"wall_s"`
+	Complete     bool              `json:"complete"`
 }
 
 var (
